@@ -1,5 +1,6 @@
 (* C07 A successful build leaves no orphaned outputs behind.
-   Property theorems only; proofs live in proofs/TrellisDDProofs.v and proofs/CleanProofs.v. *)
+   Property theorems only; proofs live in proofs/TrellisDDProofs.v, TrellisDDPath.v, CleanProofs.v,
+   CleanDirs.v and CleanOptional.v. *)
 From Coq Require Import List NArith Bool.
 From SV Require Import lib.Bytes.
 From SV Require Import gen.GenClean.
@@ -7,6 +8,9 @@ From SV Require Import model.TrellisDD.
 From SV Require Import model.Clean.
 From SV Require Import proofs.TrellisDDProofs.
 From SV Require Import proofs.CleanProofs.
+From SV Require Import proofs.TrellisDDPath.
+From SV Require Import proofs.CleanDirs.
+From SV Require Import proofs.CleanOptional.
 Import ListNotations.
 Open Scope N_scope.
 
@@ -60,16 +64,18 @@ Theorem C07_dd_survives_if_reaches_cycle :
     In k (map nkey (gnodes (dd_g (trellis_dd g)))).
 Proof. exact dd_survives_if_reaches_cycle. Qed.
 
-(* Path form as an equivalence, kept visible and NOT proved in the "only if" direction (it needs a
-   pigeonhole argument over successor chains of the settled graph); the "if" direction is the two
-   theorems above, the greatest-fixed-point form C07_dd_survivors is proved in both directions. *)
-Definition C07_dd_survivors_path_full : Prop :=
+(* Path form as an equivalence: a node survives iff it reaches, along product and sink edges, an
+   attached node or a node that lies on a cycle of creator and dependency edges.  "If" is the two
+   theorems above; "only if" follows successors inside the greatest self-supporting set until an
+   attached node or a repeated key is met (pigeonhole: proofs/TrellisDDPath.v, ss_walk). *)
+Theorem C07_dd_survivors_path_full :
   forall g, NoDup (map nkey (gnodes g)) ->
     (forall d, In d (gdeps g) -> exists n, In n (gnodes g) /\ nkey n = snd d) ->
     forall k, In k (map nkey (gnodes (dd_g (trellis_dd g)))) <->
       exists l, reaches g k l /\
         ((exists n, In n (gnodes g) /\ nkey n = l /\ ndet n = false) \/
          (exists m, succ_of g l m /\ reaches g m l)).
+Proof. exact dd_survivors_path. Qed.
 
 (* After the cleanup of a successful unrestricted build with cleaning enabled (no guard of the
    regenerated chain fires): a detached file node that File.before_delete would queue (VOLATILE: v =
@@ -92,16 +98,46 @@ Theorem C07_orphans_removed :
     ~ In (nkey n) (map nkey (gnodes (s_g r))) /\ fs_get (s_fs r) (nlabel n) = None.
 Proof. exact orphans_removed. Qed.
 
-(* Directories. Full statement, NOT proved (validated by the E1 correspondences on real trees and by
-   the oracle): no directory marked for removal is an empty directory when the cleanup ends. *)
-Definition C07_dirs_pruned_when_empty_full : Prop :=
+(* Outputs of attached optional steps that are not needed (step._implied_need = OPTIONAL, the rows
+   revert_optional_steps selects: VOLATILE / BUILT / OUTDATED sinks of such a step): after the cleanup
+   of a successful unrestricted build with cleaning, such a file that is on the abstract disk with
+   exactly the recorded content (any content when VOLATILE: v = None) is gone from disk, and its node,
+   if still in the graph, is back to PLANNED without a hash (a VOLATILE row stays VOLATILE). *)
+Theorem C07_optional_outputs_removed :
+  forall c g f n v h,
+    existsb (guard_fires c) finalize_guards = false ->
+    NoDup (map nkey (gnodes g)) ->
+    In n (gnodes g) -> is_revert_target g n = true ->
+    rq_value n = Some v -> (v = None \/ v = Some h) ->
+    fs_get f (nlabel n) = Some (FFile h) ->
+    let r := finalize c (init_state g f) in
+    fs_get (s_fs r) (nlabel n) = None /\
+    forall n', In n' (gnodes (s_g r)) -> nkey n' = nkey n ->
+      nfstate n' = (if nfstate n =? revert_exempt then nfstate n else revert_to) /\
+      nfhash n' = (if nfstate n =? revert_exempt then nfhash n else None).
+Proof. exact optional_outputs_removed. Qed.
+
+(* ... and the unneeded optional steps themselves are PENDING again. *)
+Theorem C07_optional_steps_reverted :
+  forall c g f s,
+    existsb (guard_fires c) finalize_guards = false -> NoDup (map nkey (gnodes g)) ->
+    In s (gnodes g) -> is_optional_step s = true ->
+    let r := finalize c (init_state g f) in
+    forall s', In s' (gnodes (s_g r)) -> nkey s' = nkey s -> nsstate s' = revert_step_to.
+Proof. exact optional_steps_reverted. Qed.
+
+(* Directories: no directory marked for removal is an empty directory when the cleanup ends -- also
+   when it became empty only through the removal of sub-directories during the walk towards the
+   root (proofs/CleanDirs.v: the stack is in descending code-point order, a pushed parent is popped
+   next, and after the last occurrence of d on the stack nothing at or below d is touched). *)
+Theorem C07_dirs_pruned_when_empty_full :
   forall q f d, In d (qdirs q) ->
     let r := remove_deletable_files q f in
     ~ (fs_get (r_fs r) d = Some FDir /\ dir_empty (r_fs r) d = true).
+Proof. exact dirs_pruned_when_empty_full_holds. Qed.
 
-(* Proved part: a marked directory that is an empty directory once the queued files are gone (a
-   directory that held nothing but removed outputs) is removed. The missing case is a directory
-   that only becomes empty through the removal of sub-directories during the walk towards the root. *)
+(* Special case kept for reference: a marked directory that is an empty directory once the queued
+   files are gone (a directory that held nothing but removed outputs) is removed. *)
 Theorem C07_dirs_pruned_when_empty_partial :
   forall q f d, In d (qdirs q) ->
     let f1 := fst (rdf_files q (sort_desc (dedup (map fst (qfiles q)))) f []) in
@@ -156,4 +192,37 @@ Example C07_example :
   map nkey (gnodes (dd_g r)) = [root; s; t; o] /\ map nkey (dd_deleted r) = [x] /\ dd_err r = false /\
   qfiles (queue_deleted [] (dd_deleted r) empty_queue) = [([100; 47; 120], Some 9)] /\
   qdirs (queue_deleted [] (dd_deleted r) empty_queue) = [[100]].
+Proof. vm_compute. repeat split; reflexivity. Qed.
+
+(* Non-vacuity, directories: only the deepest directory is marked (its file was the queued output); the
+   two levels above become empty one after the other during the walk towards the root and go as well;
+   a directory with a user file stays. *)
+Example C07_example_dirs :
+  let a := [97] in let ab := [97; 47; 98] in let abc := [97; 47; 98; 47; 99] in
+  let o := [97; 47; 98; 47; 99; 47; 111] in let u := [117] in let ux := [117; 47; 120] in
+  let q := mkQ [(o, Some 1)] [abc; u] in
+  let f := [(a, FDir); (ab, FDir); (abc, FDir); (o, FFile 1); (u, FDir); (ux, FFile 2)] in
+  let r := remove_deletable_files q f in
+  r_files r = [o] /\ r_dirs r = [abc; ab; a] /\ r_fs r = [(u, FDir); (ux, FFile 2)].
+Proof. vm_compute. repeat split; reflexivity. Qed.
+
+(* Non-vacuity, optional steps: the attached optional step p (_implied_need = OPTIONAL, SUCCEEDED) has a
+   BUILT output o (unmodified on disk) and a VOLATILE output v; a mandatory step m keeps its output. *)
+Example C07_example_optional :
+  let root := (KROOT, []) in let p := (KSTEP, [112]) in let m := (KSTEP, [109]) in
+  let o := (KFILE, [111]) in let v := (KFILE, [118]) in let k := (KFILE, [107]) in
+  let g := mkGraph [mkNode root (Some root) false 0 None false 0 0;
+                    mkNode p (Some root) false 0 None true 31 23;
+                    mkNode m (Some root) false 0 None true 32 23;
+                    mkNode o (Some p) false FS_BUILT (Some 7) false 0 0;
+                    mkNode v (Some p) false FS_VOLATILE None false 0 0;
+                    mkNode k (Some m) false FS_BUILT (Some 9) false 0 0]
+                   [(p, o); (p, v); (m, k)] in
+  let f := [([111], FFile 7); ([118], FFile 3); ([107], FFile 9)] in
+  let r := finalize (mkCtx false 0 true) (init_state g f) in
+  is_revert_target g (mkNode o (Some p) false FS_BUILT (Some 7) false 0 0) = true /\
+  s_files r = [[118]; [111]] /\ s_fs r = [([107], FFile 9)] /\
+  map (fun n => (nkey n, nfstate n, nfhash n, nsstate n)) (gnodes (s_g r)) =
+    [(root, 0, None, 0); (p, 0, None, 21); (m, 0, None, 23); (o, FS_PLANNED, None, 0);
+     (v, FS_VOLATILE, None, 0); (k, FS_BUILT, Some 9, 0)].
 Proof. vm_compute. repeat split; reflexivity. Qed.
